@@ -195,8 +195,15 @@ def _ids_rule(ctx, abs_):
         run.error('C15.ids', jmod.name, '-', 'ScopeName constructions', 'no ScopeName construction found in the parser')
     # __post_init__ of NamespaceIds validates every identifier (details: C14.valid-ids)
     post = nids.methods.get('__post_init__')
-    has_re = post is not None and any(isinstance(x, ast.Call) and ast.unparse(x.func) in ('re.fullmatch', 're.match')
-                                      for x in ast.walk(post.node))
+    # a regular-expression test (re.<fn>(pattern, id) or <compiled pattern>.<fn>(id)) guarding a raise; the language of
+    # the pattern and its anchoring are judged by C14.valid-ids
+    has_re = False
+    if post is not None:
+        for x in ast.walk(post.node):
+            if isinstance(x, ast.Call) and isinstance(x.func, ast.Attribute) and x.func.attr in ('fullmatch', 'match'):
+                recv = ctx.cg.env(post).type_of(x.func.value)
+                if ast.unparse(x.func.value) == 're' or recv[0] == 'extobj':
+                    has_re = True
     run.add('C15.ids', nids.module.name, 'NamespaceIds.__post_init__', 'identifier validation', has_re,
             'NamespaceIds.__post_init__ validates each identifier with a regular expression' if has_re else
             'NamespaceIds no longer validates its identifiers')
